@@ -39,6 +39,13 @@ impl Params {
             o = o
                 .set_chunk_min_size(bytesize::ByteSize(self.min as u64))
                 .set_chunk_max_size(bytesize::ByteSize(self.max as u64));
+        } else {
+            if self.min != 0 {
+                o = o.set_chunk_min_size(bytesize::ByteSize(self.min as u64));
+            }
+            if self.max != 0 {
+                o = o.set_chunk_max_size(bytesize::ByteSize(self.max as u64));
+            }
         }
         match catch_unwind(AssertUnwindSafe(|| o.apply(&mut c))) {
             Ok(Ok(())) => Ok(c),
@@ -331,6 +338,11 @@ fn params_grid(thorough: bool) -> Vec<Params> {
     }
     for size in [0usize, 1, 2, 7, 4096, 8000] {
         v.push(Params { fixed: true, poly: POLYS[0], size, min: 0, max: 0 });
+    }
+    // the minimum and maximum chunk size are documented to have no effect on the fixed-size
+    // chunker: stale values (smaller / larger than the chunk size) left in the configuration
+    for (size, min, max) in [(7usize, 0usize, 3usize), (7, 20, 0), (100, 10, 50), (4096, 0, 1024), (4096, 8192, 16384)] {
+        v.push(Params { fixed: true, poly: POLYS[0], size, min, max });
     }
     v
 }
